@@ -292,6 +292,24 @@ def loose_time(s):
     return v if valid7(v) else None
 
 
+ISO_RE = re.compile(r"^(\d{4})-?(\d{1,2})-?( ?\d{1,2})(?:[Tt ](\d{1,2})(?::?(\d{1,2})(?::?(\d{1,2})(?:[.,](\d+))?)?)?)?"
+                    r"(?:Z|z|[+-]\d{2}(?::?\d{2}(?::?\d{2}(?:\.\d+)?)?)?)?$")
+
+
+def iso_time(s):
+    """generous ISO-8601 reading (date, optional time parts, optional fraction of any length, optional UTC offset which
+    is ignored: the wall-clock fields) -> 7-list or None.  Used only to judge values of texts the code ACCEPTS."""
+    if not isinstance(s, str) or not s.isascii():
+        return None
+    m = ISO_RE.fullmatch(s)
+    if not m:
+        return None
+    g = m.groups()
+    v = [int(g[0]), int(g[1]), int(g[2])] + [int(x) if x is not None else 0 for x in g[3:6]]
+    v.append(int((g[6] or "0")[:6].ljust(6, "0")))
+    return v if valid7(v) else None
+
+
 def valid7(v):
     y, mo, d, h, mi, s, us = v
     if not (1 <= y <= 9999 and 1 <= mo <= 12 and h < 24 and mi < 60 and s < 60 and us < 10 ** 6):
@@ -339,7 +357,7 @@ def judge_document(value):
                 return ("bad", "time-type", None)
             s = strict_time(t)
             if s is None:
-                s = loose_time(t)
+                s = loose_time(t) or iso_time(t)
                 if s is None:
                     return ("bad", "time-text", None)
                 if status == "good":
@@ -505,23 +523,26 @@ def parse_case(ck, batch, s):
     try:
         info = FileInfo.from_json_dict({"path": "/p", "times": [s, s], "attr": {}})
         got = t7(info.times[0])
-    except ValueError:
+    except Exception:      # noqa  (any exception ends in load_cache's warning branch)
         got = None
-    except Exception as e:      # noqa
-        got = "exc:" + type(e).__name__
-    want_strict, want_loose = strict_time(s), loose_time(s)
-    # oracle: a canonical text must be read as itself; any accepted text must read as its obvious meaning
+    want_strict = strict_time(s)
+    readings = [r for r in (loose_time(s), iso_time(s)) if r is not None]
+    # oracle: a canonical text must be read as itself; any other text may be rejected or accepted, but an accepted text
+    # must get a value consistent with an ISO reading of it (which parser typhon uses is not part of the property)
     if want_strict is not None and got != want_strict:
         ck.violation("time-parse", f"canonical text {s!r} read as {got}", case)
-    elif got is not None and got != want_loose:
-        ck.violation("time-parse", f"text {s!r} read as {got}, oracle reads {want_loose}", case)
+    elif isinstance(got, list) and got not in readings:
+        ck.violation("time-parse", f"text {s!r} read as {got}, no ISO reading gives that ({readings})", case)
     ck.case(key=("parse", s) if got is not None else None, kind="time/parse-" + ("ok" if isinstance(got, list) else "err"),
             sample={"text": s, "parsed": got})
 
     def cb(out):
         m = None if out[0] == "err" else [int(x) for x in out[0].split()]
-        if m != got:
-            ck.disagree(f"parse {s!r}: model {m} vs code {got}", case)
+        if want_strict is not None or (m is not None and got is not None):
+            if m != got:
+                ck.disagree(f"parse {s!r}: model {m} vs code {got}", case)
+        elif (m is None) != (got is None):
+            ck.count("time/acceptance-differs-from-model")      # non-canonical text: acceptance is not pinned
     if "\n" not in s and "\r" not in s:
         batch.add(["parse " + hexs(s)], cb)
 
@@ -803,8 +824,13 @@ def corrupt_case(ck, batch, d, content, label, preload, use_init):
     lines.append("cacheset " + model_doc_json(preload))
     lines.append(("init " if use_init else "load ") + CACHE)
 
+    loose_doc = verdict[0] == "loose"
+
     def cb(out):
         flag, _, cj = out[-1].partition(" ")
+        if loose_doc and (flag == "warn") != bool(w):
+            ck.count("corrupt/loose-time-acceptance-differs-from-model")      # which liberal texts are accepted is not pinned
+            return
         if (flag == "warn") != bool(w) or not same_cache(json.loads(cj), got):
             ck.disagree(f"{label}: model {out[-1][:120]} vs code warn={bool(w)} cache={got[:3]}", case)
     batch.add(lines, cb)
@@ -1036,16 +1062,31 @@ def history_case(ck, batch, d, nops):
             # a file whose name carries the times: 20200102_030405.dat
             t = from7(gen_time(rng)).replace(microsecond=0)
             p = os.path.join(d, "data", t.strftime("%Y").zfill(4) + t.strftime("%m%d_%H%M%S.dat"))
+            comp = [p, t7(t), t7(t), {}]
+            poisoned = rng.random() < 0.4
+            if poisoned:
+                # pin "cache look-up before any parsing": pre-fill the cache with deliberately different information
+                fake = [p, gen_time(rng), gen_time(rng), {"fake": rng.randint(0, 99)}]
+                fs.info_cache[p] = FileInfo(p, [from7(fake[1]), from7(fake[2])], dict(fake[3]))
+                o_cache = dict_update(o_cache, [fake])
+                lines.append("cacheset " + model_doc_json(o_cache))
             try:
                 info = fs.get_info(FileInfo(p))
             except Exception as e:      # noqa
                 ops.append(["getinfo-raise", p])
                 continue
-            comp = [p, t7(t), t7(t), {}]
-            if not any(e[0] == p for e in o_cache):
+            cached = next((e for e in o_cache if e[0] == p), None)
+            want_info = cached if cached is not None else comp
+            got_info = [info.path, t7(info.times[0]), t7(info.times[1]), info.attr]
+            if got_info != want_info:
+                ck.violation("cache-bypassed" if cached is not None else "getinfo-wrong",
+                             f"get_info({os.path.basename(p)}) = {got_info[1:]} expected {'the cached' if cached is not None else 'the parsed'} {want_info[1:]}",
+                             {"op": "history", "ops": list(ops) + [["getinfo-poisoned" if poisoned else "getinfo", p]]})
+            if cached is None:
                 o_cache = dict_update(o_cache, [comp])
-            ops.append(["getinfo", p])
+            ops.append(["getinfo-poisoned" if poisoned else "getinfo", p])
             lines.append(f"getinfo {json.dumps(p)} {json.dumps(comp)}")
+            checks.append((len(lines) - 1, "getinfo", got_info, None, None))
         snap(op)
     atexit.unregister(type(fs).save_cache)
     case = {"op": "history", "ops": ops}
@@ -1059,11 +1100,97 @@ def history_case(ck, batch, d, nops):
                 if not m or m.group(2) != show_state(c) or m.group(3) != show_state(b):
                     ck.disagree(f"history save: model {o[-80:]} vs disk cache={show_state(c)[:30]} backup={show_state(b)[:30]}", case)
                     return
+            elif tag == "getinfo":
+                if o == "raise" or json.loads(o) != got:
+                    ck.disagree(f"history get_info: model {o[:100]} vs code {got}", case)
+                    return
             else:
                 if not same_cache(json.loads(o), got):
                     ck.disagree(f"history after {tag}: model cache {o[:100]} vs code {got[:3]}", case)
                     return
     batch.add(lines, cb)
+
+
+# ---------------------------------------------------------------- part G: the atexit hook (real interpreter exit)
+ATEXIT_CHILD = r"""
+import datetime as dt, json, os, sys, warnings
+warnings.simplefilter("ignore")
+from typhon.files import FileSet
+root = sys.argv[1]
+pattern = os.path.join(root, "data", "{year}{month}{day}_{hour}{minute}{second}.dat")
+a = FileSet(pattern, info_cache=os.path.join(root, "good.json"), name="a")
+b = FileSet(pattern, info_cache=os.path.join(root, "bad.json"), name="b")
+found_a = [i.path for i in a.find(dt.datetime(1999, 1, 1), dt.datetime(2030, 1, 1), no_files_error=False)]
+found_b = [i.path for i in b.find(dt.datetime(1999, 1, 1), dt.datetime(2030, 1, 1), no_files_error=False)]
+json.dump({"a": found_a, "b": found_b, "a_cache": len(a.info_cache), "b_cache": len(b.info_cache)}, open(os.path.join(root, "child.json"), "w"))
+# normal interpreter exit: the atexit hooks registered by FileSet.__init__ must save both caches
+"""
+
+
+def atexit_case(ck, d):
+    """a child interpreter builds FileSet(info_cache=f), runs find() and exits normally; the parent reads the cache file.
+    (a) an intact cache file must afterwards hold the old entries and the files found; (b) a malformed cache file: what
+    happens is recorded (notes/C15.md), no verdict."""
+    import subprocess
+    import sys
+    rng = ck.rng
+    root = tempfile.mkdtemp(dir=d)
+    try:
+        os.makedirs(os.path.join(root, "data"))
+        times = []
+        for _ in range(rng.randint(1, 5)):
+            t = dt.datetime(rng.choice([2001, 2016, 2024]), rng.randint(1, 12), rng.randint(1, 28), rng.randint(0, 23), rng.randint(0, 59), rng.randint(0, 59))
+            if t not in times:
+                times.append(t)
+                builtins.open(os.path.join(root, "data", t.strftime("%Y%m%d_%H%M%S.dat")), "w").close()
+        old = [["/old/kept.nc", gen_time(rng), gen_time(rng), {"old": True}]]
+        with builtins.open(os.path.join(root, "good.json"), "w") as f:
+            f.write(doc_text(old))
+        bad_text = doc_text(old)[:-7]
+        with builtins.open(os.path.join(root, "bad.json"), "w") as f:
+            f.write(bad_text)
+        case = {"op": "atexit", "files": [t7(t) for t in sorted(times)], "old": old}
+        env = dict(os.environ, PYTHONWARNINGS="ignore")
+        p = subprocess.run([sys.executable, "-c", ATEXIT_CHILD, root], capture_output=True, text=True, timeout=300, env=env)
+        if p.returncode != 0 or not os.path.exists(os.path.join(root, "child.json")):
+            ck.violation("atexit-child-failed", f"child interpreter exited {p.returncode}: {p.stderr[-300:]}", case)
+            return
+        child = json.load(builtins.open(os.path.join(root, "child.json")))
+        want_paths = ["/old/kept.nc"] + sorted(child["a"])
+        try:
+            saved = json.load(builtins.open(os.path.join(root, "good.json")))
+            got_paths = [e["path"] for e in saved]
+        except Exception as e:      # noqa
+            ck.violation("atexit-not-saved", f"cache file after interpreter exit is not a document: {type(e).__name__}", case)
+            return
+        if sorted(got_paths) != sorted(want_paths):
+            ck.violation("atexit-not-saved", f"after a normal interpreter exit the cache file holds {len(got_paths)} entries "
+                                             f"{[os.path.basename(x) for x in got_paths][:4]}, expected the old entry and the {len(child['a'])} files found", case)
+        else:
+            by_path = {e["path"]: e for e in saved}
+            for t in times:
+                pth = os.path.join(root, "data", t.strftime("%Y%m%d_%H%M%S.dat"))
+                if by_path[pth]["times"] != [iso7(t7(t)), iso7(t7(t))]:
+                    ck.violation("atexit-not-saved", f"entry saved at exit has times {by_path[pth]['times']}, expected {iso7(t7(t))}", case)
+            if by_path["/old/kept.nc"]["times"] != [iso7(old[0][1]), iso7(old[0][2])] or by_path["/old/kept.nc"]["attr"] != {"old": True}:
+                ck.violation("atexit-not-saved", "the entry restored from the old cache file was not written back unchanged", case)
+        if os.path.exists(os.path.join(root, "good.json.backup")):
+            ck.violation("backup-left", "backup file remains after the save at interpreter exit", case)
+        # (b) malformed file: observation only
+        after = builtins.open(os.path.join(root, "bad.json")).read()
+        if after == bad_text:
+            ck.count("atexit/malformed-file-left-as-is")
+        else:
+            try:
+                n = len(json.loads(after))
+                ck.count("atexit/malformed-file-overwritten-with-new-cache")
+                if n != len(child["b"]):
+                    ck.count("atexit/malformed-file-overwritten-unexpected-size")
+            except Exception:      # noqa
+                ck.count("atexit/malformed-file-replaced-by-other-garbage")
+        ck.case(key=("atexit", json.dumps(case["files"])), kind="atexit", sample={"files": len(times), "saved_entries": len(got_paths)})
+    finally:
+        shutil.rmtree(root, ignore_errors=True)
 
 
 # ---------------------------------------------------------------- corpus / main
@@ -1083,8 +1210,10 @@ def run_case(ck, batch, d, c):
         hard_crash_case(ck, d, c.get("old"), c["new"], c["k"])
 
 
-def explore(ck, batch, d, n_docs, n_time, n_find, n_hist, n_hard, thorough):
+def explore(ck, batch, d, n_docs, n_time, n_find, n_hist, n_hard, thorough, n_atexit=0):
     rng = ck.rng
+    for _ in range(n_atexit):
+        atexit_case(ck, d)
     time_cases(ck, batch, n_time)
     # boundary documents first
     docs = [[], [["/x", list(MIN7), list(MAX7), {}]],
@@ -1138,7 +1267,8 @@ def main():
                "µs 0/1/999999), unicode/quoted paths, nested JSON attributes; per document: complete save + EVERY crash point "
                "(open, each write call of json.dump, before/after rename) followed by a restart; truncation at every byte and ~50 "
                "type/key mutations of small documents; time texts (valid + mutated); find() with/without cache on real files; "
-               "random histories of fill/save/crash/restart/corrupt/load/reset/get_info; forked hard kills. "
+               "random histories of fill/save/crash/restart/corrupt/load/reset/get_info (also on paths pre-filled with different "
+               "information); forked hard kills; a child interpreter whose normal exit must save the cache (atexit). "
                "non-trivial = distinct (document, crash point) with a non-empty document, distinct corrupted byte string, "
                "distinct time / accepted time text, history with > 3 ops")
     ck.anchors(ANCHORS)
@@ -1151,7 +1281,8 @@ def main():
             run_case(ck, batch, d, c)
         thorough = ck.tier == "thorough"
         explore(ck, batch, d, n_docs=ck.budget(40, 400), n_time=ck.budget(600, 8000), n_find=ck.budget(25, 250),
-                n_hist=ck.budget(60, 800), n_hard=ck.budget(10, 80), thorough=thorough)
+                n_hist=ck.budget(60, 800), n_hard=ck.budget(10, 80), thorough=thorough,
+                n_atexit=1 if ck.tier == "quick" else 6)
         ck.exhaustive = False
         ck.notes.append("every write-call index of json.dump was used as a crash point for each document with <= 3 entries "
                         "(all documents in the thorough tier); larger documents: open, first writes, 6 random writes, before/after rename")
